@@ -29,6 +29,7 @@ class Index:
         self._mods = {}
         self._src = {}
         self._classes = None
+        self._flat = {}
         self.canon_counts = {}
         self.consulted = []
 
@@ -156,6 +157,15 @@ class Index:
                 raise AnalysisError(f"anchor is not a function: {rel}::{qual}")
             return None
         return node
+
+    def flat_func(self, rel, qual, keep=(), depth=2):
+        """`func(rel, 'Class.method')` with the helper methods of the class it calls as whole statements inlined (see flatten_function)"""
+        fn = self.func(rel, qual)
+        cname = qual.split(".")[0]
+        key = (rel, qual, tuple(sorted(keep)), depth)
+        if key not in self._flat:
+            self._flat[key] = flatten_function(fn, self.methods(rel, cname), keep, depth)
+        return self._flat[key]
 
     def methods(self, rel, clsname):
         return {n.name: n for n in self.cls(rel, clsname).body if isinstance(n, ast.FunctionDef)}
@@ -970,3 +980,159 @@ def param_role(fn, pattern):
     params = {a.arg for a in fn.args.args}
     hits = {m.group(1) for m in re.finditer(pattern, norm_src(fn)) if m.group(1) in params}
     return hits.pop() if len(hits) == 1 else None
+
+
+# --------------------------------------------------------------------------------------
+# statement-level inlining of same-class helper methods ("extract method" undone)
+
+def _has_return(node):
+    return any(isinstance(n, ast.Return) for n in walk_no_nested(node)) or isinstance(node, ast.Return)
+
+
+def _single_exit(stmts, make_result):
+    """the statement list with every `return v` replaced by make_result(v) (a list of statements) and the statements after an `if` that
+    returns moved into its branches; None if a return sits inside a loop/with/try (not convertible)"""
+    if not stmts:
+        return []
+    s, rest = stmts[0], stmts[1:]
+    if isinstance(s, ast.Return):
+        return make_result(s.value, s)
+    if isinstance(s, ast.Raise):
+        return [s]
+    if isinstance(s, ast.If) and _has_return(s):
+        a = _single_exit(list(s.body) + [_strip_parents(x) for x in rest], make_result)
+        b = _single_exit(list(s.orelse) + [_strip_parents(x) for x in rest], make_result)
+        if a is None or b is None:
+            return None
+        new = ast.If(test=s.test, body=a or [ast.Pass()], orelse=b)
+        return [ast.copy_location(new, s)]
+    if isinstance(s, (ast.For, ast.AsyncFor, ast.While, ast.With, ast.AsyncWith, ast.Try)) and _has_return(s):
+        return None
+    tail = _single_exit(rest, make_result)
+    return None if tail is None else [s] + tail
+
+
+def flatten_function(fn, methods, keep=(), depth=2):
+    """a copy of `fn` in which calls (as whole statements: `self.h(...)`, `x = self.h(...)`, `return self.h(...)`) of helper methods of
+    the same class are replaced by the helper's body - parameters read as the arguments, `return v` turned into the assignment the
+    call site makes.  Helpers named in `keep` (the routines a rule addresses by name), generators, helpers with *args/**kwargs, and
+    helpers that return from inside a loop are left as calls.  Lets a rule that reads the statements of a function read them again
+    after a block was moved into a helper method."""
+    counter = [0]
+
+    def names_assigned(stmts):
+        out = set()
+        for s in stmts:
+            for n in ast.walk(s):
+                if isinstance(n, ast.Name) and isinstance(n.ctx, ast.Store):
+                    out.add(n.id)
+        return out
+
+    def inline(call, h, make_result, caller_names):
+        a = h.args
+        if h.decorator_list or a.vararg or a.kwarg or a.posonlyargs or a.kwonlyargs or any(isinstance(n, (ast.Yield, ast.YieldFrom)) for n in ast.walk(h)):
+            return None
+        params = [x.arg for x in a.args]
+        if params and params[0] in ("self", "cls"):
+            params = params[1:]
+        bound = {}
+        for p_, v_ in zip(params, call.args):
+            if isinstance(v_, ast.Starred):
+                return None
+            bound[p_] = v_
+        for k in call.keywords:
+            if k.arg is None:
+                return None
+            bound[k.arg] = k.value
+        defaults = dict(zip(params[len(params) - len(a.defaults):], a.defaults))
+        for p_ in params:
+            if p_ not in bound:
+                if p_ not in defaults:
+                    return None
+                bound[p_] = defaults[p_]
+        body = [_strip_parents(s) for s in h.body if not (isinstance(s, ast.Expr) and isinstance(s.value, ast.Constant))]
+        assigned = names_assigned(body)
+        counter[0] += 1
+        suffix = f"__{h.name}{counter[0]}"
+        rename, pre = {}, []
+        for p_ in params:
+            arg = bound[p_]
+            if isinstance(arg, ast.Name) and (p_ not in assigned or arg.id == p_):
+                rename[p_] = arg.id              # read (and, same name, re-bound) as the caller's variable
+            elif isinstance(arg, ast.Constant) and p_ not in assigned:
+                rename[p_] = arg
+            else:
+                rename[p_] = p_ + suffix if (p_ in caller_names) else p_
+                pre.append(ast.Assign(targets=[ast.Name(id=rename[p_], ctx=ast.Store())], value=_strip_parents(arg)))
+        for loc_ in assigned:
+            if loc_ not in rename and loc_ in caller_names:
+                rename[loc_] = loc_ + suffix
+
+        class R(ast.NodeTransformer):
+            def visit_Name(self, n):
+                r = rename.get(n.id)
+                if r is None:
+                    return n
+                if isinstance(r, ast.Constant):
+                    return _strip_parents(r) if isinstance(n.ctx, ast.Load) else n
+                return ast.copy_location(ast.Name(id=r, ctx=n.ctx), n)
+
+            def visit_FunctionDef(self, n):
+                return n
+
+            def visit_Lambda(self, n):
+                return n
+
+        body = [R().visit(s) for s in body]
+        out = _single_exit(body, make_result)
+        if out is None:
+            return None
+        for s in pre:
+            ast.copy_location(s, call)
+        return pre + out
+
+    def helper_of(call):
+        if isinstance(call, ast.Call) and isinstance(call.func, ast.Attribute) and isinstance(call.func.value, ast.Name) and call.func.value.id == "self":
+            h = methods.get(call.func.attr)
+            if h is not None and h is not fn and h.name not in keep:
+                return h
+        return None
+
+    def block(stmts, level, caller_names):
+        out = []
+        for s in stmts:
+            done = None
+            if level > 0:
+                if isinstance(s, ast.Expr) and helper_of(s.value) is not None:
+                    done = inline(s.value, helper_of(s.value), lambda v, r: [], caller_names)
+                elif isinstance(s, ast.Assign) and len(s.targets) == 1 and helper_of(s.value) is not None:
+                    tgt = s.targets[0]
+
+                    def mk(v, r, tgt=tgt, s=s):
+                        if v is None:
+                            v = ast.Constant(value=None)
+                        return [ast.copy_location(ast.Assign(targets=[_strip_parents(tgt)], value=v), r)]
+                    done = inline(s.value, helper_of(s.value), mk, caller_names)
+                elif isinstance(s, ast.Return) and helper_of(s.value) is not None:
+                    done = inline(s.value, helper_of(s.value), lambda v, r: [ast.copy_location(ast.Return(value=v), r)], caller_names)
+            if done is not None:
+                out += block(done, level - 1, caller_names | names_assigned(done))
+                continue
+            for field in ("body", "orelse", "finalbody"):
+                if isinstance(getattr(s, field, None), list) and not isinstance(s, (ast.FunctionDef, ast.ClassDef, ast.AsyncFunctionDef)):
+                    setattr(s, field, block(getattr(s, field), level, caller_names))
+            if isinstance(s, ast.Try):
+                for hd in s.handlers:
+                    hd.body = block(hd.body, level, caller_names)
+            out.append(s)
+        return out
+
+    new = _strip_parents(fn)
+    caller_names = names_assigned(new.body) | {x.arg for x in new.args.args}
+    new.body = block(new.body, depth, caller_names)
+    ast.fix_missing_locations(new)
+    for node in ast.walk(new):
+        for ch in ast.iter_child_nodes(node):
+            ch._parent = node
+    new._flattened = True
+    return new
